@@ -19,7 +19,7 @@ def corpus(c, depth2, depth3):
     cases.sort(key=lambda x: json.dumps(x["e"], sort_keys=True))
     return cases
 
-def observe(c, cases, per_prog, nvals, features=(), limit=None, hooks_log=None):
+def observe(c, cases, per_prog, nvals, features=(), limit=None, hooks_log=None, rustc_extra=()):
     """render, compile, run; returns path of the concatenated trace and number of programs. hooks_log: the programs are
     linked against the library built with its trace hooks on, which append to that file (extension check X04)"""
     wd = c.wd
@@ -33,7 +33,7 @@ def observe(c, cases, per_prog, nvals, features=(), limit=None, hooks_log=None):
         src = os.path.join(pd, "t%03d.rs" % i)
         open(src, "w").write(G.program(ch, vlib.seed() * 1000 + i, nvals))
         jobs.append((src, os.path.join(pd, "t%03d" % i)))
-    res = deps.compile_many(jobs)
+    res = deps.compile_many(jobs, extra=rustc_extra)
     for (src, _), (ok, diags) in zip(jobs, res):
         if not ok:
             raise vlib.ToolError("generated program %s does not compile (generator or library API problem, not a verdict):\n%s" % (src, "\n".join(d["rendered"] for d in diags[:3])))
